@@ -57,56 +57,62 @@ def notif_facts(prog: Program, interp: Interp, r: DispatcherRoles) -> Tuple[Dict
                              f'the request parameter `{req}` is reassigned inside {short(f.qualname)}; the response may echo another id'))
         sc = FuncScope(f, ty)
         rets = []
+        from ..flow import Flow
+        fl = Flow(cfg)
         for n in cfg.stmt_nodes():
             a = n.ast
             if not isinstance(a, ast.Return):
                 continue
-            v = strip_await(a.value) if a.value is not None else None
-            kind = 'other'
-            detail = ''
-            if v is None or (isinstance(v, ast.Constant) and v.value is None):
-                kind = 'none'
-            elif is_unset_expr(prog, f, v):
-                kind = 'unset'
-            elif isinstance(v, ast.Call):
-                tg = ty.callees(v, sc)
-                if any(k == 'ctor' and isinstance(o, ClassInfo) and o.qualname == V20 + '.Response' for k, o in tg):
-                    kind = 'response'
-                    idv = kwarg(v, 'id', 0)
-                    detail = 'id=' + (norm(idv).replace(req, '<request>') if idv is not None else '<missing>')
-                    kws = sorted(kw.arg or '**' for kw in v.keywords)
-                    detail += ' kw=' + ','.join(kws)
-                    if idv is None or dotted(idv) != f'{req}.id':
-                        problems.append(('ID-ECHO', f'{role}: response id is not the request id', n.line,
-                                         f'{short(f.qualname)} builds a response with id={norm(idv) if idv is not None else "<missing>"} '
-                                         f'instead of the id of the request being handled ({req}.id)'))
-                elif any(k == 'func' and isinstance(o, FuncInfo) and o.cls is r.cls for k, o in tg):
-                    kind = 'delegate'
-                    detail = [o.name for k, o in tg if k == 'func'][0]
-            # notification guards dominating the return
-            g_notif: Optional[bool] = None
-            for g in guard_edges(cfg, n):
-                t = is_notif_test(prog, f, g.src.ast, {req})
-                if t is not None:
-                    g_notif = (t == (g.label == 'T'))     # True: on this edge the request IS a notification
-            rets.append((kind, detail, g_notif))
-            if kind == 'response' and g_notif is not False:
-                problems.append(('NOTIF-SILENT', f'{role}: response returned without excluding notifications', n.line,
-                                 f'{short(f.qualname)} can return a response object on a path where the request may be a '
-                                 f'notification (no dominating `{req}.id is None` → UNSET): notifications must never be answered'))
-            if kind == 'unset' and g_notif is not True:
-                problems.append(('NOTIF-SILENT', f'{role}: UNSET returned for a call', n.line,
-                                 f'{short(f.qualname)} can return UNSET (no response) on a path where the request carries an id: '
-                                 f'every call must be answered exactly once'))
-            if kind in ('none', 'other'):
-                problems.append(('NOTIF-SILENT', f'{role}: unexpected return value', n.line,
-                                 f'{short(f.qualname)} returns `{norm(a.value) if a.value is not None else "None"}`, which is neither a '
-                                 f'response for the request nor UNSET'))
+            # every value this return can produce, with the conditions of the path it travels (conditional expressions,
+            # temporaries and dominating branches alike)
+            from ..flow import Alt
+            alts = fl.alts(n, a.value) if a.value is not None else [Alt(ast.Constant(value=None), [(g.src.ast, g.label == 'T') for g in guard_edges(cfg, n)], n)]
+            for al in alts:
+                v = strip_await(al.expr)
+                kind = 'other'
+                detail = ''
+                if v is None or (isinstance(v, ast.Constant) and v.value is None):
+                    kind = 'none'
+                elif is_unset_expr(prog, f, v):
+                    kind = 'unset'
+                elif isinstance(v, ast.Call):
+                    tg = ty.callees(v, sc)
+                    if any(k == 'ctor' and isinstance(o, ClassInfo) and o.qualname == V20 + '.Response' for k, o in tg):
+                        kind = 'response'
+                        idv = kwarg(v, 'id', 0)
+                        detail = 'id=' + (norm(idv).replace(req, '<request>') if idv is not None else '<missing>')
+                        kws = sorted(kw.arg or '**' for kw in v.keywords)
+                        detail += ' kw=' + ','.join(kws)
+                        if idv is None or dotted(idv) != f'{req}.id':
+                            problems.append(('ID-ECHO', f'{role}: response id is not the request id', n.line,
+                                             f'{short(f.qualname)} builds a response with id={norm(idv) if idv is not None else "<missing>"} '
+                                             f'instead of the id of the request being handled ({req}.id)'))
+                    elif any(k == 'func' and isinstance(o, FuncInfo) and o.cls is r.cls for k, o in tg):
+                        kind = 'delegate'
+                        detail = [o.name for k, o in tg if k == 'func'][0]
+                g_notif: Optional[bool] = None
+                for c_, pol_ in al.guards:
+                    t = is_notif_test(prog, f, c_, {req})
+                    if t is not None:
+                        g_notif = (t == pol_)     # True: on this path the request IS a notification
+                rets.append((kind, detail, g_notif))
+                if kind == 'response' and g_notif is not False:
+                    problems.append(('NOTIF-SILENT', f'{role}: response returned without excluding notifications', n.line,
+                                     f'{short(f.qualname)} can return a response object on a path where the request may be a '
+                                     f'notification (no dominating `{req}.id is None` → UNSET): notifications must never be answered'))
+                if kind == 'unset' and g_notif is not True:
+                    problems.append(('NOTIF-SILENT', f'{role}: UNSET returned for a call', n.line,
+                                     f'{short(f.qualname)} can return UNSET (no response) on a path where the request carries an id: '
+                                     f'every call must be answered exactly once'))
+                if kind in ('none', 'other'):
+                    problems.append(('NOTIF-SILENT', f'{role}: unexpected return value', n.line,
+                                     f'{short(f.qualname)} returns `{norm(al.expr)}`, which is neither a '
+                                     f'response for the request nor UNSET'))
         # falling off the end returns None
         if any(e.src.kind != 'stmt' or not isinstance(e.src.ast, ast.Return) for e in cfg.pred[cfg.exit.id]):
             problems.append(('NOTIF-SILENT', f'{role}: falls off the end', f.node.lineno,
                              f'{short(f.qualname)} can end without returning a response or UNSET'))
-        facts[role] = sorted(f'{k}:{d}:{"notif" if g is True else "call" if g is False else "any"}' for k, d, g in rets)
+        facts[role] = sorted({f'{k}:{d}:{"notif" if g is True else "call" if g is False else "any"}' for k, d, g in rets})
     # responses built in helper methods extracted from the chain must still echo the id of the request being handled:
     # the id expression has to be `<parameter>.id` of a parameter that receives the request at the call site
     chain = {r.handle_request.qualname, r.handle_rpc_request.qualname, r.handle_rpc_method.qualname}
@@ -702,6 +708,7 @@ def errmap_facts(prog: Program, interp: Interp, r: DispatcherRoles) -> Tuple[Dic
                 problems.append(('ERRMAP', 'unexpected exception in a method not answered with ServerError', h.line,
                                  f'an arbitrary exception raised by a method is reported as {[_sn(m) for m in made]}; -32000 (ServerError) required'))
             problems += _noleak(prog, f3, cfg3, h, body)
+            problems += _eager_format(f3, h, body, 'ServerError (-32000)')
     facts['rpc_method_handlers'] = sorted(rows3)
     # ---- _handle_request ----------------------------------------------------------------------
     f1 = r.handle_request
@@ -725,6 +732,7 @@ def errmap_facts(prog: Program, interp: Interp, r: DispatcherRoles) -> Tuple[Dic
                 problems.append(('ERRMAP', 'unexpected exception in the chain not answered with InternalError', h.line,
                                  f'an arbitrary exception in the handler chain is reported as {[_sn(m) for m in made]}; -32603 required'))
             problems += _noleak(prog, f1, cfg1, h, body)
+            problems += _eager_format(f1, h, body, 'InternalError (-32603)')
     facts['handle_request_handlers'] = sorted(rows1)
     return facts, problems
 
@@ -735,6 +743,39 @@ def _is_logging(e: ast.AST) -> bool:
 
 def _sn(q: str) -> str:
     return q.rsplit('.', 1)[-1]
+
+
+def _eager_format(f: FuncInfo, h: Node, body: List[Node], want: str) -> List[Problem]:
+    """Inside a catch-all handler the caught object is arbitrary user code: formatting it eagerly (f-string, str(), repr(), %,
+    .format) runs its __str__/__repr__, which may raise — the failure then leaves the handler as a different exception and is
+    mapped to a different error.  Lazy logging arguments (`logger.x("%r", e)`) are formatted inside logging, which swallows
+    such errors."""
+    out: List[Problem] = []
+    hname = h.ast.name if isinstance(h.ast, ast.ExceptHandler) else None
+    if not hname:
+        return out
+
+    def mentions(e: ast.AST) -> bool:
+        return any(isinstance(x, ast.Name) and x.id == hname for x in ast.walk(e))
+    for n in body:
+        for frag in node_exprs(n):
+            for x in walk_no_defs(frag):
+                bad = None
+                if isinstance(x, ast.JoinedStr) and any(isinstance(v, ast.FormattedValue) and mentions(v.value) for v in x.values):
+                    bad = 'an f-string'
+                elif isinstance(x, ast.Call) and dotted(x.func) in ('str', 'repr', 'format', 'ascii') and x.args and mentions(x.args[0]):
+                    bad = f'{dotted(x.func)}()'
+                elif isinstance(x, ast.BinOp) and isinstance(x.op, ast.Mod) and isinstance(x.left, (ast.Constant, ast.JoinedStr)) and mentions(x.right):
+                    bad = 'the % operator'
+                elif isinstance(x, ast.Call) and isinstance(x.func, ast.Attribute) and x.func.attr == 'format' and \
+                        isinstance(x.func.value, ast.Constant) and any(mentions(a) for a in list(x.args) + [k.value for k in x.keywords]):
+                    bad = 'str.format'
+                if bad:
+                    out.append(('ERRMAP', f'caught exception formatted eagerly before it is mapped to {want}', n.line,
+                                f'`{norm(x)[:80]}` formats the caught exception `{hname}` with {bad} inside the catch-all handler of '
+                                f'{short(f.qualname)}: an exception whose __str__/__repr__ raises escapes the handler as a different '
+                                f'exception, so the method\'s failure is not reported as {want} (pass it as a lazy logging argument instead)'))
+    return out
 
 
 def _noleak(prog: Program, f: FuncInfo, cfg: CFG, h: Node, body: List[Node]) -> List[Problem]:
@@ -772,17 +813,39 @@ def mw_fold_facts(prog: Program, r: DispatcherRoles) -> Tuple[Dict[str, Any], Li
     facts: Dict[str, Any] = {}
     cfg = CFG(f, prog)
     slot = f'self.{r.slot}'
+
+    def assigns(name: str):
+        out_ = []
+        for n in cfg.stmt_nodes():
+            a = n.ast
+            if n.kind != 'stmt':
+                continue
+            if isinstance(a, ast.Assign) and len(a.targets) == 1 and dotted(a.targets[0]) == name:
+                out_.append((n, a.value))
+            elif isinstance(a, ast.AnnAssign) and a.value is not None and dotted(a.target) == name:
+                out_.append((n, a.value))
+        return out_
+
+    def loop_of(n: Node):
+        lp = [m for m in cfg.nodes if m.kind == 'next' and n.id in cfg.reachable(m, edge_ok=lambda e: e.label != 'exhausted')
+              and m.id in cfg.reachable(n)]
+        return lp[0] if lp else None
+    # the chain is accumulated either in the slot itself or in a local that is stored into the slot once, after the loop
+    acc = slot
+    slot_assigns = assigns(slot)
+    if len(slot_assigns) == 1 and isinstance(slot_assigns[0][1], ast.Name) and loop_of(slot_assigns[0][0]) is None:
+        local = slot_assigns[0][1].id
+        las = assigns(local)
+        if any(loop_of(n) is not None for n, _ in las) and all(slot_assigns[0][0].id in cfg.reachable(n) for n, _ in las):
+            acc = local
     init_assign = None
     loops = []
-    for n in cfg.stmt_nodes():
-        a = n.ast
-        if n.kind == 'stmt' and isinstance(a, ast.Assign) and len(a.targets) == 1 and dotted(a.targets[0]) == slot:
-            in_loop = [m for m in cfg.nodes if m.kind == 'next' and n.id in cfg.reachable(m, edge_ok=lambda e: e.label != 'exhausted')
-                       and m.id in cfg.reachable(n)]
-            if in_loop:
-                loops.append((in_loop[0], n))
-            else:
-                init_assign = n
+    for n, v_ in assigns(acc):
+        lp = loop_of(n)
+        if lp is not None:
+            loops.append((lp, n))
+        else:
+            init_assign = n
     if init_assign is None:
         raise AnalysisError(f'{f.qualname}: initial assignment of {slot} not found')
     base = dotted(init_assign.ast.value)
@@ -832,11 +895,11 @@ def mw_fold_facts(prog: Program, r: DispatcherRoles) -> Tuple[Dict[str, Any], Li
     ok_partial = isinstance(v, ast.Call) and dotted(v.func) in ('ft.partial', 'functools.partial', 'partial') and v.args and \
         dotted(v.args[0]) == target
     hk = kwarg(v, 'handler') if isinstance(v, ast.Call) else None
-    facts['wrap'] = 'partial(<mw>, handler=<chain>)' if ok_partial and hk is not None and dotted(hk) == slot else norm(v)[:80]
+    facts['wrap'] = 'partial(<mw>, handler=<chain>)' if ok_partial and hk is not None and dotted(hk) == acc else norm(v)[:80]
     if not ok_partial:
         problems.append(('MW-FOLD', 'fold step is not partial(middleware, …)', body.line,
                          f'`{norm(body.ast)}` does not wrap the iteration element `{target}` as the new outer layer'))
-    elif hk is None or dotted(hk) != slot:
+    elif hk is None or dotted(hk) != acc:
         problems.append(('MW-FOLD', 'middleware does not receive the rest of the chain', body.line,
                          f'`{norm(body.ast)}`: the `handler` handed to the middleware must be the chain built so far ({slot})'))
     if ok_partial and (len(v.args) > 1 or any(kw.arg not in ('handler',) for kw in v.keywords)):
@@ -912,11 +975,23 @@ def eh_fold_facts(prog: Program, interp: Interp, r: DispatcherRoles) -> Tuple[Di
                          f'the response receive it'))
     # iteration source: chain(generic, per-code) evaluated once
     order = []
-    if isinstance(it, ast.Call) and dotted(it.func) in ('it.chain', 'itertools.chain', 'chain'):
-        for a in it.args:
-            order.append(_eh_key(a, err_var))
+    from ..flow import Flow
+    fl_ = Flow(cfg)
+    it_n = [m for m in cfg.nodes if m.kind == 'iter' and m.ast is it]
+
+    def _resolved(a: ast.expr) -> ast.expr:
+        # a local holding the lookup (`common = handlers.get(None, [])`) stands for the lookup
+        if isinstance(a, ast.Name) and it_n:
+            al = fl_.alts(it_n[0], a)
+            if len(al) == 1:
+                return al[0].expr
+        return a
+    it_r = _resolved(it)
+    if isinstance(it_r, ast.Call) and dotted(it_r.func) in ('it.chain', 'itertools.chain', 'chain'):
+        for a in it_r.args:
+            order.append(_eh_key(_resolved(a), err_var))
     else:
-        order.append(_eh_key(it, err_var))
+        order.append(_eh_key(it_r, err_var))
     facts['order'] = order
     if order != ['generic', 'per-code']:
         problems.append(('EH-FOLD', f'handler order {order}', head.line,
